@@ -593,6 +593,30 @@ func init() {
 				pf.AckStall = []int{0, 30, 60}
 				pf.Ratio = []int{0, 1, 50, 100, 100}
 			}
+			if r.Chance(8) {
+				// two lifecycle calls from two goroutines at once (a Restart waiting for the jobs in
+				// flight while somebody resumes, pauses or restarts as well): whatever the outcome, a
+				// worker that says Running at the end dispatches what is pending
+				pf.GatedPct = 60
+				pf.Ctrl, pf.CtrlOps = nil, [2]int{0, 0}
+				c, p := generate(r, pf)
+				for t, nt := 0, 2+r.Intn(2); t < nt; t++ {
+					var ops []Op
+					for k := r.Intn(5); k > 0; k-- {
+						ops = append(ops, Op{K: opYield})
+					}
+					first := opRestart
+					if t > 0 {
+						first = pickW(r, []wop{{opResume, 4}, {opPause, 1}, {opRestart, 1}})
+					}
+					ops = append(ops, Op{K: first})
+					if r.Chance(40) {
+						ops = append(ops, Op{K: opYield}, Op{K: opResume})
+					}
+					p.Tasks = append(p.Tasks, ops)
+				}
+				return c, p
+			}
 			return generate(r, pf)
 		},
 		NonTrivial: func(ep *Episode) bool { return countAccepted(ep) >= 2 },
@@ -897,6 +921,29 @@ func init() {
 			pf.Cancellers, pf.CancelOps = [2]int{0, 1}, [2]int{1, 3}
 			pf.Cancel = []wop{{opCloseJob, 6}, {opPurge, 2}, {opCloseQueue, 1}}
 			pf.Releaser = 50
+			if r.Chance(10) {
+				// several goroutines bind further queues at the same time and submit to them: the
+				// worker's pending count is the sum over all of them, and every one is served
+				pf.Cancellers = [2]int{0, 0}
+				c, p := generate(r, pf)
+				nb := 2 + r.Intn(2)
+				for b := 0; b < nb; b++ {
+					var ops []Op
+					for k := r.Intn(4); k > 0; k-- {
+						ops = append(ops, Op{K: opYield})
+					}
+					ops = append(ops, Op{K: opBind, A: pick(r, memKinds)})
+					for k := 1 + r.Intn(3); k > 0; k-- {
+						n := len(p.Subs)
+						q := len(c.Queues) + r.Intn(nb)
+						p.Subs = append(p.Subs, SubT{N: n, Q: q, Batch: -1})
+						ops = append(ops, Op{K: opAdd, Q: q, Subs: []int{n}})
+					}
+					ops = append(ops, Op{K: opSettle, A: 1})
+					p.Tasks = append(p.Tasks, ops)
+				}
+				return c, p
+			}
 			return generate(r, pf)
 		},
 		NonTrivial: func(ep *Episode) bool {
